@@ -131,6 +131,9 @@ func c09Profiles(tier Tier) []*explore.Profile {
 				b.Must(uni.SetRole(uni.S0, uni.R, uni.NFTRoles...))
 				b.Must(uni.Create(uni.S0, uni.R, 3))
 				b.Must(uni.NFTTransfer(uni.S0, uni.C1, uni.R, 1, 2)).DeliverAll()
+				// a plain transfer of the contract s0 was refused on the other shard: its refund is in flight
+				b.Must(uni.ESDTTransfer(uni.S0, uni.S1c, uni.F, 1))
+				b.Refused(uni.Deliver(0))
 				w := b.W.Clone()
 				for _, d := range [][]byte{uni.B0, uni.S0, uni.C1, uni.S1c} {
 					w.Payable[string(d)] = ans
@@ -193,6 +196,10 @@ func shapesMenu(w *world.World, o menuOpts) []world.Action {
 					}
 					if hasF && hasS {
 						acts = append(acts, uni.Call(from, from, vmcommon.BuiltInFunctionMultiESDTNFTTransfer, append([][]byte{to, {2}, uni.S, enc, enc, uni.F, {0}, enc}, cs...)...))
+					}
+					if hasF && len(enc) == 1 {
+						// a count of k*2^64 + 1 (the function reads its low word)
+						acts = append(acts, uni.Call(from, from, vmcommon.BuiltInFunctionMultiESDTNFTTransfer, append([][]byte{to, {1, 0, 0, 0, 0, 0, 0, 0, 1}, uni.F, {}, enc}, cs...)...))
 					}
 				}
 			}
